@@ -646,9 +646,10 @@ def run_C17(ctx):
     SIM = 4000 if q else 60000          # behaviours per simulation run (divided over TLC's workers)
     # (table, readers, simulated behaviours or None = every behaviour, readers also park inside the loads)
     runs = [("small", 2, None, False), ("small", 3, SIM, False), ("nested", 2, SIM, False), ("wide", 2, SIM, False),
-            ("small", 2, SIM, True), ("nested", 2, SIM, True)]
+            ("small", 2, SIM, True), ("nested", 2, SIM, True), ("nested-nolen", 2, None, False), ("wide-nolen", 2, None, False)]
     if not q:
-        runs += [("nested", 3, SIM, False), ("wide", 3, SIM, False), ("small", 3, SIM, True), ("wide", 2, SIM, True)]
+        runs += [("nested", 3, SIM, False), ("wide", 3, SIM, False), ("small", 3, SIM, True), ("wide", 2, SIM, True),
+                 ("small", 2, None, True)]
     for cfgname, ng, sim, lg in runs:
         tab = "sched_table_%s.ndjson" % cfgname
         vlib.vh(b, ["sched-table", "-cfg", cfgname, "-out", vlib.os.path.join(ctx.specdir, tab)])
